@@ -221,6 +221,9 @@ func genC16(e *emitter, r *rng, thorough bool) {
 	for _, l := range []int{0, 1, 31, 32, 33} {
 		k := r.bytes(l)
 		sweep("mem.xkstring", k, "1")
+		if l >= 1 {
+			sweep("mem.xkaddr", k, "1 "+[]string{"0", "111", "255"}[r.intn(3)])
+		}
 		if l >= 1 && l <= 32 {
 			for _, idx := range []string{"0", "1", "2147483648", "2147483649"} {
 				sweep("mem.xkchild", k, "1 "+idx)
@@ -229,6 +232,8 @@ func genC16(e *emitter, r *rng, thorough bool) {
 	}
 	cpk := pk.SerialiseCompressed()
 	sweep("mem.xkstring", cpk, "0")
+	sweep("mem.xkaddr", cpk, "0 0")
+	sweep("mem.xkaddr", cpk[:20], "0 111")
 	sweep("mem.xkchild", cpk, "0 0")
 	sweep("mem.xkchild", cpk, "0 2147483648")
 	bad := append([]byte{}, cpk...)
